@@ -101,6 +101,24 @@ type inst struct {
 	mod api.Module
 	mem api.Memory
 	fn  map[string]api.Function
+	// bad/badP: the NEXT call is given badP as its result pointer (opened_fd, nread/nwritten, newoffset,
+	// bufused, filestat buffer) instead of the usual place in guest memory (efault.go)
+	bad  bool
+	badP uint32
+}
+
+func (x *inst) rp() uint64 {
+	if x.bad {
+		return uint64(x.badP)
+	}
+	return resP
+}
+
+func (x *inst) sp() uint64 {
+	if x.bad {
+		return uint64(x.badP)
+	}
+	return statP
 }
 
 func (r *rtime) instantiate(hostDir string) *inst {
@@ -194,7 +212,7 @@ func (x *inst) do(o *Op) (r Res) {
 			rights = rightRead | rightWrite
 		}
 		p, l := x.putPath(path1P, o.P)
-		r.Errno, r.Trap = x.call(o.K, fd, 1, p, l, oflags, rights, 0, fdflags, resP)
+		r.Errno, r.Trap = x.call(o.K, fd, 1, p, l, oflags, rights, 0, fdflags, x.rp())
 		r.N = x.u32(resP)
 	case "fd_close":
 		r.Errno, r.Trap = x.call(o.K, fd)
@@ -207,9 +225,9 @@ func (x *inst) do(o *Op) (r Res) {
 		x.mem.WriteUint32Le(iovP+8, rbufP+readPos1)
 		x.mem.WriteUint32Le(iovP+12, readLen1)
 		if o.K == "fd_read" {
-			r.Errno, r.Trap = x.call(o.K, fd, iovP, 2, resP)
+			r.Errno, r.Trap = x.call(o.K, fd, iovP, 2, x.rp())
 		} else {
-			r.Errno, r.Trap = x.call(o.K, fd, iovP, 2, uint64(o.Off), resP)
+			r.Errno, r.Trap = x.call(o.K, fd, iovP, 2, uint64(o.Off), x.rp())
 		}
 		r.N = x.u32(resP)
 		r.Buf = x.copyOut(rbufP, readArea)
@@ -231,20 +249,20 @@ func (x *inst) do(o *Op) (r Res) {
 			n = 1
 		}
 		if o.K == "fd_write" {
-			r.Errno, r.Trap = x.call(o.K, fd, iovP, n, resP)
+			r.Errno, r.Trap = x.call(o.K, fd, iovP, n, x.rp())
 		} else {
-			r.Errno, r.Trap = x.call(o.K, fd, iovP, n, uint64(o.Off), resP)
+			r.Errno, r.Trap = x.call(o.K, fd, iovP, n, uint64(o.Off), x.rp())
 		}
 		r.N = x.u32(resP)
 	case "fd_seek":
-		r.Errno, r.Trap = x.call(o.K, fd, uint64(o.Off), uint64(o.Wh), resP)
+		r.Errno, r.Trap = x.call(o.K, fd, uint64(o.Off), uint64(o.Wh), x.rp())
 		r.N = x.u64(resP)
 	case "fd_tell":
-		r.Errno, r.Trap = x.call(o.K, fd, resP)
+		r.Errno, r.Trap = x.call(o.K, fd, x.rp())
 		r.N = x.u64(resP)
 	case "fd_filestat_get":
 		x.fill(statP, 64)
-		r.Errno, r.Trap = x.call(o.K, fd, statP)
+		r.Errno, r.Trap = x.call(o.K, fd, x.sp())
 		r.Stat = x.readStat()
 	case "fd_filestat_set_size":
 		r.Errno, r.Trap = x.call(o.K, fd, uint64(o.Off))
@@ -256,7 +274,7 @@ func (x *inst) do(o *Op) (r Res) {
 	case "path_filestat_get":
 		x.fill(statP, 64)
 		p, l := x.putPath(path1P, o.P)
-		r.Errno, r.Trap = x.call(o.K, fd, 1, p, l, statP)
+		r.Errno, r.Trap = x.call(o.K, fd, 1, p, l, x.sp())
 		r.Stat = x.readStat()
 	case "path_rename":
 		p, l := x.putPath(path1P, o.P)
@@ -271,7 +289,7 @@ func (x *inst) do(o *Op) (r Res) {
 func (x *inst) readdir(fd int32, buflen uint32, cookie uint64) (r Res) {
 	x.fill(resP, 8)
 	x.fill(dirP, buflen+slack)
-	r.Errno, r.Trap = x.call("fd_readdir", uint64(uint32(fd)), dirP, uint64(buflen), cookie, resP)
+	r.Errno, r.Trap = x.call("fd_readdir", uint64(uint32(fd)), dirP, uint64(buflen), cookie, x.rp())
 	r.N = x.u32(resP)
 	r.Buf = x.copyOut(dirP, buflen+slack)
 	return
